@@ -5,6 +5,7 @@ package fault
 import (
 	"bytes"
 	"fmt"
+	"math/big"
 	"sort"
 
 	"github.com/fxamacker/cbor/v2"
@@ -47,6 +48,10 @@ func kindOf(v interface{}) (string, int) {
 		return "map", len(x)
 	case []interface{}:
 		return "array", len(x)
+	case big.Int:
+		return "bigint", x.BitLen()
+	case *big.Int:
+		return "bigint", x.BitLen()
 	}
 	return fmt.Sprintf("%T", v), 0
 }
@@ -167,6 +172,8 @@ func Alterations(kind string) []string {
 		return []string{"zero", "ones", "flipfirst", "fliplast", "trunc", "extend", "empty", "donor", "random", "null", "absent"}
 	case "uint", "int":
 		return []string{"zero", "one", "inc", "max", "null", "absent"}
+	case "bigint":
+		return []string{"zero", "one", "inc", "negate", "huge", "donor", "random", "null", "absent"}
 	case "bool":
 		return []string{"negate", "null"}
 	case "map":
@@ -251,6 +258,30 @@ func Mutate(data []byte, path, alt string, donor []byte, rnd *sim.Rng) ([]byte, 
 				b = rnd.Bytes(len(b))
 			}
 			return b, false
+		case big.Int:
+			y := new(big.Int).Set(&x)
+			switch alt {
+			case "zero":
+				y.SetInt64(0)
+			case "one":
+				y.SetInt64(1)
+			case "inc":
+				y.Add(y, big.NewInt(1))
+			case "negate":
+				y.Neg(y)
+				if y.Sign() == 0 {
+					y.SetInt64(-1)
+				}
+			case "huge":
+				y.Lsh(y.Add(y, big.NewInt(1)), 8192)
+			case "random":
+				n := (x.BitLen() + 7) / 8
+				if n == 0 {
+					n = 8
+				}
+				y.SetBytes(rnd.Bytes(n))
+			}
+			return *y, false
 		case uint64:
 			switch alt {
 			case "zero":
